@@ -7,6 +7,7 @@
 #include <version>
 #endif
 #include <exception>
+#include <iterator>
 #include <utility>
 #include <variant>
 #include "bitserializer/serialization_detail/serialization_options.h"
@@ -30,11 +31,19 @@ namespace BitSerializer
 
 		void AddValidationError(std::string path, std::string errorMsg)
 		{
+			AddValidationErrors(std::move(path), ValidationErrors{ std::move(errorMsg) });
+		}
+
+		/// <summary>
+		/// Adds all validation errors of one field (the limit of errors is checked after adding the complete list).
+		/// </summary>
+		void AddValidationErrors(std::string path, ValidationErrors errors)
+		{
 			if (const auto it = mErrorsMap.find(path); it == mErrorsMap.end()) {
-				mErrorsMap.try_emplace(std::move(path), ValidationErrors{ std::move(errorMsg) });
+				mErrorsMap.try_emplace(std::move(path), std::move(errors));
 			}
 			else {
-				it->second.push_back(std::move(errorMsg));
+				it->second.insert(it->second.end(), std::make_move_iterator(errors.begin()), std::make_move_iterator(errors.end()));
 			}
 
 			// Immediately throw `ValidationException` when `MaxValidationErrors` is exceeded
